@@ -14,6 +14,7 @@ RULE = (
     "complete product field catalogue (all admissible plane-wave vectors x amplitudes x offsets x phases; droplet fields; all non-constant "
     "{0,1} fields on 6 and 2x3 cells) x spacing {1e-3, 1/32, 0.39, 1, 3, 10, 100} x scaling {-2, 0.5, 1e3} x shifts x methods; "
     "the reference spacing is 1; non-trivial = field is not constant"
+    "; anisotropic equal-count grids; every shift of every 3x4 / 4x3 binary image and of a bar family for the counting method; bright+dim droplet family x every threshold rule x scales 2^-40..1e12; grid-sequence histories; spacings 1e-9..1e6"
 )
 ASSUMPTIONS = [
     "periodic Cartesian grids; stretch factors restricted to the spacing menu; peak clause only for resolved single plane waves",
